@@ -16,7 +16,7 @@ EXTENDS Integers, Sequences, FiniteSets, TLC, Json, IOUtils, TLCExt
 TLog == ndJsonDeserialize(IOEnv.TRACE)
 NL   == Len(TLog)
 
-\* types: "int" "string" "pint" (*int) "any" (interface{}) "err" (error) "sint" ([]int)
+\* types: "int" "string" "pint" (*int) "any" (interface{}) "err" (error) "sint" ([]int) "nint" (type namedInt int)
 \* argument value kinds: "i" int, "s" string, "p" non-nil *int, "pn" typed nil *int, "nil" untyped nil,
 \*                       "e" a concrete error value, "sl" non-nil []int
 Nilable(t) == t \in {"pint", "any", "err", "sint"}
@@ -27,6 +27,7 @@ Assignable(k, t) ==
     [] k \in {"p", "pn"} -> t \in {"pint", "any"}
     [] k = "e"   -> t \in {"err", "any"}
     [] k = "sl"  -> t \in {"sint", "any"}
+    [] k = "ni"  -> t \in {"nint", "any"}       \* a named int type: same kind as int, but neither is assignable to the other
     [] k = "nil" -> Nilable(t)
     [] OTHER -> FALSE
 
